@@ -19,7 +19,7 @@ for pid in sorted(props.PROPS):
     p = props.PROPS[pid]
     lt = p['level_text']
     strength = 'partial' if lt.upper().startswith('PARTIAL') else 'full'
-    if 'REFUTED' in lt.upper(): strength += ', one part refuted'
+    if re.search(r'(?<![A-Za-z0-9_])REFUTED(?![A-Za-z0-9_])', lt.upper()): strength += ', one part refuted'
     nthm = sum(len(t[1]) for t in p['theorems'])
     mods = ', '.join(sorted({t[0].split('.')[-1] for t in p['theorems']}))
     tie = []
